@@ -39,6 +39,8 @@ EXTRA_SMILES = [
     '[2H]C([2H])([2H])C([2H])([2H])[2H]', '[13CH3][13CH3]', 'C[13CH2]C', 'ClC1C(Cl)C(Cl)C(Cl)C(Cl)C1Cl', 'OB(O)O', 'C1COC2(O1)OCCO2',
     '[O-][N+](=O)c1cc([N+](=O)[O-])cc([N+](=O)[O-])c1', 'C#CC#CC#C', 'S1SSSSSSS1', 'CC.CC.CC', '[Cl-].[Cl-].[Ca+2]',
 ]
+LARGE_SMILES = ['CCCCCCCCCCCCCCCCCCCCCC', 'CC(C)C[C@H](NC(=O)[C@H](C)N)C(=O)N[C@@H](Cc1ccccc1)C(=O)N[C@@H](CO)C(=O)O',
+                'CCCCCCCCCCCCCCCCCCCCCCCCCCCCCCCCCCCCCCCCCCCC', 'OC[C@H]1O[C@@H](O[C@H]2[C@H](O)[C@@H](O)[C@H](O)O[C@@H]2CO)[C@H](O)[C@@H](O)[C@@H]1O']
 # fingerprinting raises on these under some / all options (no retained atom; bond type outside the table)
 ERROR_SMILES = ['N->[Pt]', '[NH3]->[Pt](<-[NH3])(Cl)Cl', '[H][H]', '[Na+].[Cl-]', 'O.O.O', '[2H]O[2H].[2H]O[2H]', 'CC(=O)O->[Cu]']
 FLAT_SMILES = ['Cn1cnc2c1c(=O)n(C)c(=O)n2C', 'c1ccccc1', 'CC(=O)Oc1ccccc1C(=O)O', 'c1ccc2ccccc2c1', 'ClC=CCl', 'OCC(O)CO', 'F[C@](Cl)(Br)I',
@@ -98,6 +100,12 @@ def bases(ctx, n_extra, n_pool, n_sym, n_lat, n_near, n_flat, n_err):
             out.append(('symmetric_or_repeated', smi, m, rng.randrange(m.GetNumConformers()), {}))
     for (name, m, cid) in molgen.pool(rng, n_pool):
         out.append(('shared_pool', name, m, cid, {}))
+    # molecules with more than 64 / 128 atoms (explicit hydrogens kept): a renumbering then moves heavy atoms to indices that no
+    # small molecule has - where index-width assumptions (bit masks in a machine word, int8 ...) would show
+    for smi in (LARGE_SMILES if not ctx.quick else LARGE_SMILES[:1] + [LARGE_SMILES[2]]):      # 68 and 134 atoms in every run
+        m = molgen.embedded(smi, nconf=1, seed=3, keep_hs=True)
+        if m is not None:
+            out.append(('large', smi, m, 0, {'level': rng.choice([3, 5]), 'remdup': True}))
     for _ in range(n_sym):
         name, m, cid = molgen.synthetic_symmetric(rng)
         out.append(('threshold_directed_centre', name, m, cid, 'sym'))
